@@ -51,6 +51,21 @@ func isoImpl(line string) string {
 			return "crash"
 		}
 		return strings.TrimSpace(string(out))
+	case "before":
+		// `iso before <ase level> <sql level>`: what translating the ASE level back gives after the sql level was
+		// translated in the same (fresh) process — the same as without that history
+		if len(f) < 4 {
+			return "bad-op"
+		}
+		out, err := exec.Command(os.Args[0], "-isochild", "before:"+f[2]+":"+f[3]).Output()
+		if err != nil {
+			return "crash"
+		}
+		g := strings.Fields(string(out))
+		if len(g) != 2 {
+			return "crash"
+		}
+		return g[0]
 	case "togo":
 		seen := map[string]bool{}
 		for i := 0; i < reps; i++ {
@@ -81,6 +96,15 @@ func isoImpl(line string) string {
 }
 
 func isoChild(arg string) {
+	if strings.HasPrefix(arg, "before:") {
+		// the other history: a sql level is translated first, THEN an ASE level is translated back and printed
+		f := strings.Split(arg, ":")
+		a, _ := strconv.Atoi(f[1])
+		q, _ := strconv.Atoi(f[2])
+		_, _ = dblib.ASEIsolationLevelFromGo(sql.IsolationLevel(q))
+		fmt.Printf("%d %s\n", int(dblib.ASEIsolationLevel(a).ToGo()), strings.ReplaceAll(dblib.ASEIsolationLevel(a).String(), " ", "_"))
+		return
+	}
 	if strings.HasPrefix(arg, "after:") {
 		// a history in a fresh process: translate an ASE level back and print it, THEN translate a sql level
 		f := strings.Split(arg, ":")
@@ -152,6 +176,11 @@ func init() {
 					emit(Case{Line: fmt.Sprintf("iso after %d %d", q, a), Kind: "fromgo-after-togo"})
 				}
 			}
+			for a := -1; a <= 5; a++ {
+				for q := -1; q <= 8; q++ {
+					emit(Case{Line: fmt.Sprintf("iso before %d %d", a, q), Kind: "togo-after-fromgo"})
+				}
+			}
 		},
 		Impl:    isoImpl,
 		NoModel: func(line string) bool { return strings.HasPrefix(line, "iso str") },
@@ -196,7 +225,7 @@ func init() {
 				if out != want {
 					return "the four supported levels (default = read committed) translate, every other level is an error"
 				}
-			case "togo":
+			case "togo", "before":
 				if strings.Contains(out, ",") {
 					return "translating back always gives the same answer for the same level"
 				}
